@@ -154,7 +154,7 @@ def run_verus_part(res, cfg, src, report_extra, modules=None, prefix=""):
         raise ToolError("Verus VIR error:\n" + stderr[-2000:])
     # a second look at failures: rerun once with a doubled rlimit to separate flakiness from a definite answer
     if failures:
-        rc2, js2, diags2, stderr2 = verus.run_verus(path, {}, extra=extra, rlimit=40)
+        rc2, js2, diags2, stderr2 = verus.run_verus(path, {}, extra=extra, rlimit=120)
         failures2, front2, _ = verus.classify(diags2, marks, js2)
         ids2 = set()
         for f in failures2:
@@ -232,8 +232,13 @@ def run_verus_part(res, cfg, src, report_extra, modules=None, prefix=""):
         res.functions["assume_with_contract"] = [p for p in report["assume"]]
     res.log["unit_report"] = {k: (len(v) if isinstance(v, list) else v) for k, v in report.items()}
     times = {}
-    for k, v in breakdown.items():
-        times[k] = v.get("time-micros", 0)
+    for m in mine:
+        if m["kind"] in ("body", "lemma"):
+            nm = verus_fn_name(m["fn"]) if m["kind"] == "body" else None
+            for k, v in breakdown.items():
+                if (nm and k == nm) or (m["kind"] == "lemma" and k.endswith("::" + m["fn"].split("::")[-1])):
+                    times[prefix + m["fn"]] = {"smt_us": v.get("time-micros", 0), "rlimit": v.get("rlimit", 0), "success": v.get("success")}
+    res.log.setdefault("verus_function_times", {}).update(times)
     res.log["verus_smt_ms"] = js.get("times-ms", {}).get("smt", {}).get("smt-run", None)
     res.log["verus_total_ms"] = js.get("times-ms", {}).get("total", None)
     # scan for assumptions in the generated text
@@ -464,6 +469,7 @@ def write_evidence(res, cfg, rc):
         "solver_time_ms": {"verus_smt": res.log.get("verus_smt_ms"), "verus_total": res.log.get("verus_total_ms"), "kani_s": res.log.get("kani_s")},
         "extraction": {"expand_cmd": res.log.get("expand_cmd"), "unit_sha256": res.log.get("unit_sha256"), "fidelity": res.log.get("fidelity"), "report": res.log.get("unit_report")},
         "assumption_scan": res.log.get("assumption_scan"),
+        "verus_function_times": res.log.get("verus_function_times"),
         "vacuity_canary": res.log.get("canary"),
         "sensitivity_suite": res.log.get("sensitivity"),
         "fastmath_cfg_eval": res.log.get("fastmath_cfg_eval"),
